@@ -20,7 +20,8 @@ META = {
     "next_states is non-None iff it declares states; (c) states/actions/disturbances are assigned only in "
     "__init__/init_vars and next_states only in __init__/ElementWithVars.step; (d) the Function options do "
     "not allow free symbols"
-    "; (b') a step whose dynamics raise leaves next_states None; the scan on a network with two links of the same name; writers may be private helpers only called from the allowed writers",
+    "; (b') a step whose dynamics raise leaves next_states None; the scan on a network with two links of the same name; writers may be private helpers only called from the allowed writers"
+    "; the results of the most recent step are what remains after earlier steps (history independence)",
     "explanation": "The scan of Engine.to_function is interpreted from source for every (element, typestate) "
     "pair after the real Network.step has been interpreted on the network; the expected verdict comes from "
     "the class-level declarations. Writers of the typestate fields are found by a package-wide AST rule.",
